@@ -16,6 +16,7 @@ KEYS = [b"url", b"path", b"protocol", b"host", b"username", b"password"]
 
 
 def run(db, chk):
+    line_terminator_agreement_rule(db, chk)
     present_fields_are_written_rule(db, chk)
     decode_split_rule(db, chk)
     w = db.one(W)
@@ -168,3 +169,30 @@ def present_fields_are_written_rule(db, chk):
         chk.ob("present-field-is-always-written", "write_key (%d writes)" % len(ws), not bad,
                "whether a field is written depends on its key or value (line %s): a field holding Some(\"\") is left out and decodes back as None - helpers no longer receive `password=`" % sorted(set(bad)),
                "%s:%d" % (f.file, f.line), key="present-field-written|write_key")
+
+
+def line_terminator_agreement_rule(db, chk):
+    """writer and reader must agree on where a line ends.  The reader cuts the message with bstr's `lines()`, which drops `\n` AND a preceding
+    `\r`; so a value that ends in a carriage return does not come back as it was sent (`username=bob\r` decodes to `bob`).  Whatever the reader's
+    splitter strips at the end of a line, the writer's validate() must refuse at the end of a value: if from_bytes uses lines(), validate()
+    tests for the byte 13 as well (git disallows CR in the protocol for the same reason)."""
+    rd = [f for f in db.by_crate["gix_credentials"] if "protocol::context::serde::decode" in f.name and f.kind != "promoted"]
+    uses_lines = any(c.is_(r"ByteSlice::lines$|::lines$") for f in rd for c in f.calls())
+    v = db.one(r"^gix_credentials::protocol::context::serde::validate$")
+    consts = set()
+    fam = [v] + [p for n, p in getattr(v, "promoteds", {}).items() if n.startswith(v.name + "::{promoted#")]
+    for g in fam:
+        for bi, si, pl, rv, ln, mc in g.assigns():
+            for o in __import__("gx.facts", fromlist=["x"]).rvalue_operands(rv):
+                if isinstance(o, dict) and "p" not in o and isinstance(o.get("v"), int):
+                    consts.add(o["v"])
+        for c in g.calls():
+            for a in c.args:
+                if "p" not in a and isinstance(a.get("v"), int):
+                    consts.add(a["v"])
+                if "refv" in a and isinstance(a["refv"], int):
+                    consts.add(a["refv"])
+    chk.floor("validate(): byte constants tested (NUL, LF)", int(0 in consts) + int(10 in consts), 2)
+    chk.ob("writer-refuses-what-the-reader-strips", "validate() vs from_bytes()", (not uses_lines) or 13 in consts,
+           "from_bytes() splits with lines(), which also strips a carriage return before the newline, but validate() lets a value ending in \\r through: it is sent and decodes back without its last byte",
+           "%s:%d" % (v.file, v.line), key="cr-agreement|validate")
